@@ -174,7 +174,7 @@ class Ctx:
 
 # rules that consist of evaluated clauses only: the number of instances is a property of the checker, not of the spelling
 EVALUATED_RULES = {
-    "C02.equation", "C05.formulation", "C06.formulation", "C07.eval", "C09.pfba", "C09.moma", "C09.room", "C09.abs", "C10.annot", "C11.roundtrip",
+    "C02.equation", "C05.formulation", "C06.formulation", "C07.eval", "C07.guard", "C09.pfba", "C09.moma", "C09.room", "C09.abs", "C10.annot", "C11.roundtrip",
     "C15.model", "C16.validate", "C17.formulation", "C18.formulation", "C19.blocked", "C19.fastcc", "C08.remover",
 }
 
